@@ -2,7 +2,32 @@
 
 package session
 
+import (
+	"context"
+	"net"
+	"time"
+)
+
 // Export shim for the C10 harness (injected by -overlay; never committed to the repo).
 
 // VerifRunBidirectionalForward runs the unexported half-close aware forwarder.
 func VerifRunBidirectionalForward(c *BidirectionalForwardConfig) { runBidirectionalForward(c) }
+
+// VerifListenerRig: a CrossNodeListener over a SessionManager that knows exactly one bridge, whose source
+// side is the given connection (the listener's TargetReady path needs nothing else of the manager).
+type VerifListenerRig struct {
+	L      *CrossNodeListener
+	Bridge *TunnelBridge
+}
+
+func VerifNewListenerRig(ctx context.Context, tunnelID string, source net.Conn) *VerifListenerRig {
+	sm := &SessionManager{tunnelBridges: map[string]*TunnelBridge{}, closedTunnels: map[string]time.Time{}}
+	b := NewTunnelBridge(ctx, &TunnelBridgeConfig{TunnelID: tunnelID, SourceConn: source})
+	sm.tunnelBridges[tunnelID] = b
+	return &VerifListenerRig{L: NewCrossNodeListener(sm, 0), Bridge: b}
+}
+
+// HandleConnection runs the unexported per-connection handler of the listener (what acceptLoop starts).
+func (r *VerifListenerRig) HandleConnection(ctx context.Context, c net.Conn) {
+	r.L.handleConnection(ctx, c)
+}
